@@ -39,6 +39,10 @@ PATTERNS = [
     ('/', [(('path', 'root', []), 0.5)]),
     ('processing-instruction()', [(P(step('child', ('type', 'pi'))), -0.5)]),
     ("processing-instruction('pi')", [(P(step('child', ('pi', 'pi'))), 0.0)]),
+    # unions whose alternatives target different node kinds, in both orders (rules are filed per alternative by kind and name)
+    ('@x|a', [(P(step('attribute', name('x'))), 0.0), (P(step('child', A)), 0.0)]),
+    ('a|@x', [(P(step('child', A)), 0.0), (P(step('attribute', name('x'))), 0.0)]),
+    ('@*|*', [(P(step('attribute', WILD)), -0.5), (P(step('child', WILD)), -0.5)]),
 ]
 PRIOS_Q = [None, 0.0, 1.0]
 PRIOS_T = [None, -0.25, 0.0, 0.5, 1.0]
